@@ -47,9 +47,42 @@ def generate() -> str:
     gets = [n for n in ast.walk(body[drains[0]]) if isinstance(n, ast.Call) and isinstance(n.func, ast.Attribute) and n.func.attr == "get"]
     if len(gets) != 1:
         raise TranslationError(f"{REL}: _dispatcher_thread_function: one queue.get() per round of the drain loop expected")
+    # does the thread of a new generation wait for a callback that is still running?  Recognised, before the loop:
+    #     busy = self._dispatching_thread
+    #     if busy is not None: busy.join()
+    # and in stop(): the join of the dispatcher thread is guarded by `self._dispatching_thread is None` (nobody joins a thread
+    # that is inside a callback or waits for one)
+    waits_busy = False
+    pre = []
+    for st in fn.body:
+        if st is loops[0]:
+            break
+        pre.append(st)
+    for a, b in zip(pre, pre[1:]):
+        if (isinstance(a, ast.Assign) and len(a.targets) == 1 and isinstance(a.targets[0], ast.Name) and isinstance(a.value, ast.Attribute)
+                and a.value.attr == "_dispatching_thread" and isinstance(b, ast.If) and len(b.body) == 1 and not b.orelse
+                and isinstance(b.test, ast.Compare) and isinstance(b.test.left, ast.Name) and b.test.left.id == a.targets[0].id
+                and len(b.test.ops) == 1 and isinstance(b.test.ops[0], ast.IsNot) and isinstance(b.test.comparators[0], ast.Constant) and b.test.comparators[0].value is None):
+            call = b.body[0]
+            if (isinstance(call, ast.Expr) and isinstance(call.value, ast.Call) and isinstance(call.value.func, ast.Attribute) and call.value.func.attr == "join"
+                    and isinstance(call.value.func.value, ast.Name) and call.value.func.value.id == a.targets[0].id and not call.value.args and not call.value.keywords):
+                waits_busy = True
+    stop = find_method(cls, "stop")
+    stop_guarded = False
+    for n in ast.walk(stop):
+        if isinstance(n, ast.If) and any(isinstance(c, ast.Expr) and isinstance(c.value, ast.Call) and isinstance(c.value.func, ast.Attribute) and c.value.func.attr == "join"
+                                          and isinstance(c.value.func.value, ast.Attribute) and c.value.func.value.attr == "_dispatcher_thread" for c in n.body):
+            conds = n.test.values if isinstance(n.test, ast.BoolOp) and isinstance(n.test.op, ast.And) else [n.test]
+            for c in conds:
+                if (isinstance(c, ast.Compare) and isinstance(c.left, ast.Attribute) and c.left.attr == "_dispatching_thread" and len(c.ops) == 1
+                        and isinstance(c.ops[0], ast.Is) and isinstance(c.comparators[0], ast.Constant) and c.comparators[0].value is None):
+                    stop_guarded = True
+    waits_prev = waits_busy and stop_guarded
     return "\n".join(["(* GENERATED by harness/gen_dispatcher.py from ProtocolDispatcher._dispatcher_thread_function — do not edit. *)",
                       "From SG Require Import Base.Prelude.", "",
-                      f"Definition dispatcher_clears_before_drain : bool := {'true' if before else 'false'}.", ""])
+                      f"Definition dispatcher_clears_before_drain : bool := {'true' if before else 'false'}.",
+                      "(* a new dispatcher thread joins the thread that is inside a callback before it dispatches anything, and stop() joins no thread while a callback runs *)",
+                      f"Definition dispatcher_waits_for_previous : bool := {'true' if waits_prev else 'false'}.", ""])
 
 
 if __name__ == "__main__":
